@@ -1155,6 +1155,10 @@ class Interp:
                 else:
                     fr.storev(dst, Opt('none', TOP))
                 return
+            if 'closure' in kind:
+                # a closure is a first-class value: its captures, tagged with its body
+                fr.storev(dst, Agg(vals, ('closure', kind['closure'])))
+                return
             fr.storev(dst, Agg(vals, (kind['adt'], kind['variant_name']) if 'adt' in kind else None))
         elif k == 'repeat':
             n = rv['n']
@@ -1593,6 +1597,15 @@ class Interp:
         rv = fr.res.local_def_rv(p['l'])
         if rv and rv['k'] == 'agg' and 'closure' in rv['kind']:
             return rv['kind']['closure'], Agg([fr.operand(o_) for o_ in rv['ops']])
+        # a closure value that reached this place by moves / as an argument of an inlined callee
+        v = fr.operand(op)
+        for _ in range(4):
+            if isinstance(v, Ref):
+                v = self._ref_value(fr, v)
+        if isinstance(v, tuple) and len(v) == 2 and v[0] == 'byref':
+            v = v[1]
+        if isinstance(v, Agg) and isinstance(v.kind, tuple) and len(v.kind) == 2 and v.kind[0] == 'closure' and self.facts.body(v.kind[1]) is not None:
+            return v.kind[1], Agg(list(v.items))
         return None
 
     def _sub(self):
@@ -1798,8 +1811,22 @@ class Interp:
         return None
 
     def _havoc(self, fr, t, why):
-        # every &mut argument's referent becomes opaque; so does the result
+        # every &mut argument's referent becomes opaque -- also when the reference travels inside a by-value tuple,
+        # struct or closure (e.g. the argument tuple of FnOnce::call_once); so does the result
         body = fr.body
+
+        def wipe(v, depth=0):
+            if depth > 4:
+                return
+            if isinstance(v, Ref):
+                try:
+                    cur = fr.store.get(v.root, TOP)
+                    fr.store[v.root] = fr._update(cur, list(v.proj), TOP) if v.proj else TOP
+                except Exception:
+                    fr.store[v.root] = TOP
+            elif isinstance(v, Agg):
+                for x in v.items:
+                    wipe(x, depth + 1)
         for a in t['args']:
             p = op_place(a)
             if p is None or p['p']:
@@ -1807,6 +1834,10 @@ class Interp:
             ty = body.local_ty(p['l'])
             if ty.startswith('&mut'):
                 fr.store_through(a, TOP)
+            elif not ty.startswith('&'):
+                v = fr.store.get(p['l'])
+                if isinstance(v, Agg):
+                    wipe(v)
         fr.storev(t['dest'], TOP)
 
     def _inline_call(self, fr, t, res, pth):
